@@ -1324,6 +1324,13 @@ func (a *Agent) replaceRedundantPeerReflexiveCandidates(set []Candidate, cand Ca
 // addRemoteCandidate assumes you are holding the lock (must be execute using a.run).
 // Returns true when the candidate is accepted (including duplicates).
 func (a *Agent) addRemoteCandidate(cand Candidate) bool { //nolint:cyclop
+	// A failed agent released its pairs and candidates; only Restart brings it back.
+	if a.connectionState == ConnectionStateFailed {
+		a.log.Debugf("Ignoring remote candidate, agent has failed: %s", cand)
+
+		return false
+	}
+
 	if !a.shouldAcceptRemoteCandidate(cand) {
 		return false
 	}
@@ -1405,6 +1412,19 @@ func (a *Agent) addCandidate(ctx context.Context, cand Candidate, candidateConn 
 		// loop.Run can both let a cycle through that has been canceled in the meantime:
 		// look again now that nothing can run in between.
 		if addErr = ctx.Err(); addErr != nil {
+			return
+		}
+
+		// A failed agent released its pairs and candidates; only Restart brings it back.
+		if a.connectionState == ConnectionStateFailed {
+			a.log.Debugf("Ignoring local candidate, agent has failed: %s", cand)
+			if err := cand.close(); err != nil {
+				a.log.Warnf("Failed to close late candidate: %v", err)
+			}
+			if err := candidateConn.Close(); err != nil {
+				a.log.Warnf("Failed to close late candidate connection: %v", err)
+			}
+
 			return
 		}
 
